@@ -104,7 +104,7 @@ class Ctx:
         json.dump(sel, open(cpath, "w"))
         with Lock("gen"):
             rc, out = self.sh(["go", "run", "-overlay", self.ovl, "./zz_verif_tools/go2lean", "-config", cpath,
-                               "-out", os.path.join(LEAN, "AlgoVerif", "Gen"), "-overlay", self.ovl], cwd=REPO, timeout=900)
+                               "-out", os.path.join(LEAN, "AlgoVerif", "Gen"), "-overlay", self.ovl, "-repo", REPO], cwd=REPO, timeout=900)
         self.trusted.append("tools/go2lean translator (validated each run by correspondence of Gen defs vs the real functions)")
         if rc != 0:
             self.tie_failures.append("go2lean: " + out.strip().splitlines()[-1] if out.strip() else "go2lean failed")
